@@ -544,6 +544,100 @@ func sessionFacts() {
 		"a timer of the session timeout, reset by every heartbeat; when it fires the session is closed and its cleanup write is issued (listed keys, the session record, the shadow range)")
 }
 
+// routeFacts: every route that applies log entries to the database (C06, C07).
+func routeFacts() {
+	db := parse("server/kv/db.go")
+	pw := funcDecl(db, "db", "ProcessWrite")
+	pb := ""
+	if pw != nil {
+		pb = squash(src(pw.Body))
+	}
+	iApply := strings.Index(pb, "d.applyWriteRequest(b, batch, commitOffset, timestamp, updateOperationCallback)")
+	iCo := strings.Index(pb, "d.addASCIILong(commitOffsetKey, commitOffset, batch, timestamp)")
+	iLv := strings.Index(pb, "d.addASCIILong(commitLastVersionIdKey, d.versionIdTracker.Load(), batch, timestamp)")
+	iCommit := strings.Index(pb, "batch.Commit()")
+	add("versionIdPersistedAfterApply", "Bool", boolLean(iApply >= 0 && iApply < iCo && iCo < iLv && iLv < iCommit && strings.Count(pb, "batch.Commit()") == 1),
+		"server/kv/db.go: (*db).ProcessWrite",
+		"the commit offset and the version counter (read after the request has been applied) go into the same batch as the effects, committed once")
+	lc := parse("server/leader_controller.go")
+	w := funcDecl(lc, "leaderController", "write")
+	wb := ""
+	if w != nil {
+		wb = squash(src(w.Body))
+	}
+	add("leaderLiveUsesWrapperCallbackAndEntryArgs", "Bool", boolLean(strings.Contains(wb, "lc.db.ProcessWrite(request, newOffset, timestamp, WrapperUpdateOperationCallback)") &&
+		strings.Contains(wb, "Offset: newOffset,") && strings.Contains(wb, "Timestamp: timestamp,") &&
+		strings.Contains(wb, "Requests: &proto.WriteRequests{Writes: []*proto.WriteRequest{request}}")),
+		"server/leader_controller.go: (*leaderController).write",
+		"the live path applies the request with the offset and timestamp it logged, through the wrapper callback")
+	rp := funcDecl(lc, "leaderController", "applyAllEntriesIntoDBLoop")
+	rb := ""
+	if rp != nil {
+		rb = squash(src(rp.Body))
+	}
+	ra := funcDecl(lc, "leaderController", "applyAllEntriesIntoDB")
+	rab := ""
+	if ra != nil {
+		rab = squash(src(ra.Body))
+	}
+	add("leaderReplayUsesWrapperCallbackAndEntryArgs", "Bool", boolLean(strings.Contains(rb, "for _, writeRequest := range logEntryValue.GetRequests().Writes { if _, err = lc.db.ProcessWrite(writeRequest, entry.Offset, entry.Timestamp, WrapperUpdateOperationCallback); err != nil { return err } }") &&
+		strings.Contains(rb, "logEntryValue := &proto.LogEntryValue{}")),
+		"server/leader_controller.go: applyAllEntriesIntoDBLoop", "the replay of a new leader applies every request of every entry with the entry's offset and timestamp, through the wrapper callback")
+	add("leaderReplayStartsAfterDbCommitOffset", "Bool", boolLean(strings.Contains(rab, "dbCommitOffset, err := lc.db.ReadCommitOffset()") &&
+		strings.Contains(rab, "r, err := lc.wal.NewReader(dbCommitOffset)")),
+		"server/leader_controller.go: applyAllEntriesIntoDB", "the replay reads the WAL from the commit offset stored in the database (exclusive)")
+	fc := parse("server/follower_controller.go")
+	pc := funcDecl(fc, "followerController", "processCommitRequest")
+	pcb := ""
+	if pc != nil {
+		pcb = squash(src(pc.Body))
+	}
+	add("followerApplyUsesWrapperCallbackAndEntryArgs", "Bool", boolLean(strings.Contains(pcb, "for _, br := range logEntryValue.GetRequests().Writes { _, err := fc.db.ProcessWrite(br, entry.Offset, entry.Timestamp, WrapperUpdateOperationCallback)")),
+		"server/follower_controller.go: processCommitRequest", "the follower applies every request of an entry with the entry's offset and timestamp, through the wrapper callback")
+	pl := funcDecl(fc, "followerController", "processCommittedEntriesLoop")
+	plb := ""
+	if pl != nil {
+		plb = squash(src(pl.Body))
+	}
+	add("followerApplyResetsPooledEntry", "Bool", boolLean(strings.Contains(plb, "logEntryValue.ResetVT() if err := logEntryValue.UnmarshalVT(entry.Value); err != nil") &&
+		strings.Contains(plb, "if entry.Offset > maxInclusive {") &&
+		strings.Contains(plb, "fc.commitOffset.Store(entry.Offset)")),
+		"server/follower_controller.go: processCommittedEntriesLoop", "the pooled entry value is reset before every decode; entries beyond the advertised commit offset are not applied")
+	pe := funcDecl(fc, "followerController", "processCommittedEntries")
+	peb := ""
+	if pe != nil {
+		peb = squash(src(pe.Body))
+	}
+	add("followerApplyStartsAfterCommitOffset", "Bool", boolLean(strings.Contains(peb, "fc.wal.NewReader(fc.commitOffset.Load())")),
+		"server/follower_controller.go: processCommittedEntries", "an apply round reads the WAL from the follower's commit offset (exclusive)")
+	nf := funcDecl(fc, "", "NewFollowerController")
+	nfb := ""
+	if nf != nil {
+		nfb = squash(src(nf.Body))
+	}
+	iRt := strings.Index(nfb, "fc.term, fc.termOptions, err = fc.db.ReadTerm()")
+	iEn := strings.Index(nfb, "fc.db.EnableNotifications(fc.termOptions.NotificationsEnabled)")
+	iCo2 := strings.Index(nfb, "commitOffset, err := fc.db.ReadCommitOffset()")
+	add("followerRestartRestoresNotificationsFlag", "Bool", boolLean(iRt >= 0 && iEn > iRt && iCo2 > 0 && strings.Contains(nfb, "fc.commitOffset.Store(commitOffset)")),
+		"server/follower_controller.go: NewFollowerController", "a restarted follower restores the notifications setting of its term and its commit offset from the database")
+	lnt := funcDecl(lc, "leaderController", "NewTerm")
+	fnt := funcDecl(fc, "followerController", "NewTerm")
+	okNt := lnt != nil && fnt != nil && strings.Contains(squash(src(lnt.Body)), "lc.db.EnableNotifications(lc.termOptions.NotificationsEnabled)") &&
+		strings.Contains(squash(src(fnt.Body)), "fc.db.EnableNotifications(fc.termOptions.NotificationsEnabled)")
+	add("newTermSetsNotificationsFlag", "Bool", boolLean(okNt), "server/*_controller.go: NewTerm", "a new term sets the notifications flag from the term options on leader and follower controllers")
+	hs := funcDecl(fc, "followerController", "handleSnapshot")
+	hsb := ""
+	if hs != nil {
+		hsb = squash(src(hs.Body))
+	}
+	iLc := strings.Index(hsb, "loader.Complete()")
+	iNd := strings.Index(hsb, "newDb, err := kv.NewDB(")
+	iEn2 := strings.Index(hsb, "newDb.EnableNotifications(fc.termOptions.NotificationsEnabled)")
+	iSet := strings.Index(hsb, "fc.db = newDb fc.commitOffset.Store(commitOffset) fc.lastAppendedOffset = commitOffset")
+	add("snapshotInstallReopensDatabase", "Bool", boolLean(iLc >= 0 && iNd > iLc && iEn2 > iNd && iSet > iEn2 && strings.Contains(hsb, "err := fc.wal.Clear()")),
+		"server/follower_controller.go: handleSnapshot", "after a snapshot the database is re-opened from the received files, gets the term's notifications setting, and commit offset and head are taken from it; the WAL is cleared")
+}
+
 // moreFacts collects the facts of the other properties (added per property).
 func moreFacts() {
 	walFacts()
@@ -556,4 +650,5 @@ func moreFacts() {
 	clientFacts()
 	pipelineFacts()
 	sessionFacts()
+	routeFacts()
 }
